@@ -228,6 +228,35 @@ pub fn run(ctx: &Ctx) -> i32 {
         });
     }
 
+
+    // leaves whose cel in the second frame is a LINKED cel: hidden layers contribute nothing there either
+    let maxl = if thorough { 7 } else { 6 };
+    for n in 1..=maxl {
+        let fam = format!("forest-links-n{}", n);
+        if !ctx.wants_family(&fam) {
+            continue;
+        }
+        let fs = forests(n);
+        ctx.family(&fam, fs.len() as u64 * (1u64 << n), &format!("all {} forests of {} layers x all visible-flag assignments, two frames: every leaf holds its pixel in frame 0 and a linked cel (-> frame 0) in frame 1; both frame images compared with the model", fs.len(), n), true);
+        fs.par_iter().for_each(|lv| {
+            for vis in 0..(1u32 << n) {
+                let case = || format!("{:?} vis={:0w$b} linked second frame", lv, vis, w = n);
+                if !ctx.wants(&fam, &case) {
+                    continue;
+                }
+                let mut f = forest_sprite(lv, vis);
+                let mut second = Frame::new(20);
+                for c in &f.frames[0].chunks {
+                    if let Body::Cel(cel) = &c.body {
+                        second.push(link_cel(cel.layer, cel.x, cel.y, cel.opacity, 0));
+                    }
+                }
+                f.frames.push(second);
+                conform(ctx, &fam, &case, &f, &want);
+            }
+        });
+    }
+
     // wide groups: a parent that lies more than 255 / 256 layers before its child
     if ctx.wants_family("wide-groups") {
         let mut cases: Vec<(usize, u32, usize)> = Vec::new();
